@@ -130,7 +130,7 @@ func panicSite(stderr string) (site string, excerpt string) {
 		ex = ex[:3000]
 	}
 	site = "unknown"
-	for _, fn := range []string{"poolRoutine", "reconstructLastCommit", "SwitchToConsensus", "VerifyCommit", "AddBlock", "RedoRequest", "PopRequest", "requestRoutine", "makeRequestersRoutine", "ApplyBlock", "ExecBlock"} {
+	for _, fn := range []string{"RedoRequest", "PopRequest", "reconstructLastCommit", "VerifyCommit", "AddBlock", "requestRoutine", "makeRequestersRoutine", "ApplyBlock", "ExecBlock", "SwitchToConsensus", "poolRoutine"} {
 		if strings.Contains(ex, fn) {
 			site = fn
 			break
